@@ -61,11 +61,12 @@ CLAIMS = {
     "C15": (
         "Theorems C15_exit_zero, C15_exit_code, C15_exit_invalid, C15_exit_startup, C15_exit_crash (the documented exit for "
         "every ending, as a decision table over lean/AsphaltModel/Runner.lean) and C15_teardown, C15_teardown_once, "
-        "C15_teardown_complete, C15_exit_independent (for every list of registered callbacks and every ending the root "
-        "context's callbacks run each once, in reverse order, with the block's exception where asked, to completion, and the "
+        "C15_teardown_complete, C15_exit_independent (for every list of registered callbacks - each possibly registering "
+        "further callbacks while it runs - and every ending the root context's callbacks run each once, in reverse order of "
+        "registration (`expectedOrder`), with the block's exception where asked, to completion, and the "
         "context closes — by running the root context's life through the kernel model and the C01 theorems). "
         "Correspondence: the real run_application() is called in-process with generated applications (1-5 components, "
-        "callbacks, service tasks, CLI / non-CLI) for every ending incl. real SIGINT / SIGTERM, on both back-ends under a "
+        "callbacks incl. ones registered during the teardown, nine kinds of non-int run() results, service tasks, CLI / non-CLI) for every ending incl. real SIGINT / SIGTERM, on both back-ends under a "
         "virtual clock; teardown order, callback arguments and exit must equal the model's. The whole decision table is "
         "enumerated in both tiers.",
         "Partial: OS signal delivery and sys.exit are implementation-side; the order in which sibling components register "
